@@ -612,6 +612,14 @@ def l15(ctx, rid):
     c07.h6(ctx, rid)
 
 
+def l16(ctx, rid):
+    """C03.I4 instances: a blob whose index could not be loaded is only handed on (restored as the active blob) after clear() and a
+    successful regeneration; with an index left on disk every write to the restored blob fails before the size check and the
+    worker notification, and the blob is never rotated"""
+    import props.c03 as c03
+    c03.i4(ctx, rid)
+
+
 RULES = [
     Rule('C13.L1', 'the worker loop is only left through the Stop arm (recv() == None) and contains no reachable panic written in the worker module', l1, 4),
     Rule('C13.L3', 'one channel, Sender never cloned, stored only in the Running state, dropped before the worker handle is awaited', l3, 4),
@@ -625,6 +633,7 @@ RULES = [
     Rule('C13.L12', 'the worker skips starting a background task only while one is really running (decided by JoinHandle::is_finished)', l12, 2),
     Rule('C13.L13', 'filters of different shape are never merged on the worker path (C10.B10 instances: the merge would panic inside the worker)', l13, 2),
     Rule('C13.L14', 'a state transition of the observer never drops a Running state (its Sender) on a returning path', l14, 1),
+    Rule('C13.L16', 'a failed index load ends in clear() + successful regeneration before the blob is handed on (C03.I4 instances)', l16, 2),
     Rule('C13.L15', 'the blob id counter is never given back: a creation failure bound to one file name cannot repeat for ever (C07.H6 instances)', l15, 3),
     Rule('C13.L8', 'request-pending / in-progress flags are released on every path of their handler (C12.S8 instances)', l8, 1),
 ]
